@@ -44,11 +44,13 @@ def P_entry(c, fine, coarse, nodes, co):
     return w
 
 
-def make(shape, seed, cplx=True, case='isotropic', mu=False):
+def make(shape, seed, cplx=True, case='isotropic', mu=False, far=False):
     import emg3d
     rng = np.random.default_rng(seed)
     h = [rng.uniform(0.5, 2.0, n) for n in shape]
-    grid = emg3d.TensorMesh(h, origin=(rng.uniform(-5, 5), 1.0, -3.0))
+    # far=True: a grid far away from the coordinate origin (coordinates 1e5 times the cell widths, as with projected map coordinates)
+    origin = (2.0e5, -3.0e5, 1.5e5) if far else (rng.uniform(-5, 5), 1.0, -3.0)
+    grid = emg3d.TensorMesh(h, origin=origin)
     kw = dict(property_x=rng.uniform(0.5, 2, shape))
     if case in ('HTI', 'triaxial'):
         kw['property_y'] = rng.uniform(0.5, 2, shape)
@@ -115,9 +117,9 @@ def check_prolongation(patterns, shapes, seeds):
     for sc in patterns:
         co = COARSENED[sc]
         for shape in shapes:
-            for seed in seeds:
+            for seed, far in [(sd, fr) for sd in seeds for fr in (False, True)]:
                 cases += 1
-                grid, model, vm, sfield, res, rng = make(shape, seed, True)
+                grid, model, vm, sfield, res, rng = make(shape, seed, True, far=far)
                 cmodel, cs, ce = solver.restriction(vm, sfield, res, sc)
                 ce.field = rng.standard_normal(ce.field.size) + 1j * rng.standard_normal(ce.field.size)
                 cn = tuple(n // 2 if k else n for n, k in zip(shape, co))
@@ -160,7 +162,7 @@ def check_prolongation(patterns, shapes, seeds):
                             return dict(reproduced=True, cases=cases, clause='prolongation weights sum to one (checker spec)', sc_dir=sc, edge=(c, F), wsum=wsum)
                         if abs(new[F] - (e0[c][F] + tot)) > 1e-9 * max(1.0, abs(tot)):
                             return dict(reproduced=True, cases=cases, clause='prolongation adds P * coarse field', sc_dir=sc, shape=shape,
-                                        seed=seed, edge=(c, F), got=str(new[F]), want=str(e0[c][F] + tot),
+                                        seed=seed, far_from_origin=far, origin=[float(v) for v in grid.origin], edge=(c, F), got=str(new[F]), want=str(e0[c][F] + tot),
                                         how='contracts.c04_concrete.check_prolongation: emg3d.solver.prolongation vs explicit P from linear hat weights')
     return dict(reproduced=False, cases=cases)
 
